@@ -305,51 +305,28 @@ let rec split_slots t (v : pfx Views.vmut) (acc : coq_N list ref) =
   (match l with Some l -> split_slots t l acc | None -> ());
   (match r with Some r -> split_slots t r acc | None -> ())
 
+(* `alias` and `par`: the model side is ParModel.alias_report / par_jobs / par_result (extracted
+   Coq, theorems alias_report_true, par_schedule_independent, par_jobs_cover); the driver only
+   prints.  The hand-written functions above (own_slot, split_slots) are kept as a cross-check:
+   a disagreement with the extracted definitions aborts the run. *)
+let rec nat_of_int n = if n <= 0 then Datatypes.O else Datatypes.S (nat_of_int (n - 1))
+
 let do_alias (m : imap ref) =
   let t = root !m in
-  let slot ((i, _), _) = i in
-  let it = Stdlib.List.map slot (Inst.t_iter_mut_items t) in
+  let ((((n, b1), b2), b3), b4) = InstPar.t_alias_report !w !fl t in
   let acc = ref [] in
   split_slots t Views.vm_root acc;
-  let sp = Stdlib.List.rev !acc in
-  let sets =
-    (match Inst.t_vm_split !w t Views.vm_root with
-     | (Some vl, Some vr) ->
-       let a = Views.vm_tree t vl and b = Views.vm_tree t vr in
-       let inb = Stdlib.List.map slot (Inst.t_iter_mut_items b) in
-       let u = Stdlib.List.concat_map (fun ((_, l), r) ->
-           (match l with Some (i, _) -> [i] | None -> []) @ (match r with Some (i, _) -> [i] | None -> []))
-           (get_some (Inst.t_union_mut !w !fl a b)) in
-       let i2 = Stdlib.List.concat_map (fun ((_, (i, _)), (j, _)) -> [i; j]) (get_some (Inst.t_intersection_mut !w !fl a b)) in
-       let d = Stdlib.List.map (fun ((_, (i, _)), _) -> i) (get_some (Inst.t_difference_mut !w !fl a b)) in
-       let cd = Stdlib.List.map (fun (_, (i, _)) -> i) (get_some (Inst.t_covering_difference_mut !w !fl a b)) in
-       let sub l = Stdlib.List.for_all (fun x -> Stdlib.List.mem x it) l in
-       nodup u && sub u && nodup i2 && sub i2 && nodup d && sub d
-       && Stdlib.List.for_all (fun x -> not (Stdlib.List.mem x inb)) d && nodup cd && sub cd
-     | _ -> true) in
-  add ("n=" ^ string_of_int (Stdlib.List.length it) ^ " iter=" ^ pbool (nodup it) ^ " vals=1"
-       ^ " split=" ^ pbool (nodup sp) ^ " cover=" ^ pbool (same_set sp it) ^ " sets=" ^ pbool sets)
+  let slot ((i, _), _) = i in
+  let it = Stdlib.List.map slot (Inst.t_iter_mut_items t) in
+  if (nodup !acc && same_set !acc it) <> (b2 && b3) then failwith "alias: extracted model and driver cross-check disagree";
+  add ("n=" ^ string_of_int (int_of_nat n) ^ " iter=" ^ pbool b1 ^ " vals=1"
+       ^ " split=" ^ pbool b2 ^ " cover=" ^ pbool b3 ^ " sets=" ^ pbool b4)
 
-(* the jobs of `par`: sub-views k levels below the root; nodes that are split get 3x+7 *)
 let do_par (m : imap ref) (k : int) =
   let t0 = root !m in
-  let ws = ref [] and jobs = ref [] in
-  let rec go (v : pfx Views.vmut) depth =
-    if depth >= k then jobs := v :: !jobs
-    else begin
-      (match own_slot t0 v, Views.vm_value t0 v with
-       | Some i, Some x -> ws := (i, 3 * x + 7) :: !ws
-       | _ -> ());
-      let (l, r) = Inst.t_vm_split !w t0 v in
-      (match l with Some l -> go l (depth + 1) | None -> ());
-      (match r with Some r -> go r (depth + 1) | None -> ())
-    end in
-  go Views.vm_root 0;
-  let jobs = Stdlib.List.rev !jobs in
-  (* sequential execution of the workers: by C14_split_workers every interleaving gives this *)
-  Stdlib.List.iteri (fun i v ->
-      Stdlib.List.iter (fun ((id, _), x) -> ws := (id, 3 * x + i) :: !ws) (Views.vm_iter_mut t0 v)) jobs;
-  m := set_root !m (Trie.write_ids t0 !ws);
+  let wf i x = 3 * x + int_of_nat i and sf x = 3 * x + 7 in
+  let (jobs, _) = InstPar.t_par_jobs !w sf (nat_of_int k) t0 in
+  m := set_root !m (InstPar.t_par_result !w wf sf (nat_of_int k) t0);
   add ("jobs=" ^ string_of_int (Stdlib.List.length jobs))
 
 (* items of the mutable set operations *)
